@@ -228,6 +228,12 @@ def check(ctx):
     pr = ex.calls_to("preparation::prepare")
     ok = sz and pd and vf and pr and any(lib.guarded_by_ok(ex, s, pd[0].bb) for s in sz) and lib.guarded_by_ok(ex, pd[0], vf[0].bb) and lib.guarded_by_ok(ex, vf[0], pr[0].bb)
     ctx.require(ok, "R-MUST", "gate:order", "size limits -> parse_data -> verify -> prepare, each after the former succeeded", "the validation order in execute_air_impl changed")
+    # rows of the site table that read "cannot happen in a verified CID store" (the expect()s in
+    # collect_peers_cids_from_trace and in the execution-time CID lookups) rest on CidInfo::verify having checked every
+    # reference of every stored aggregate: that premise is evaluated here, not assumed
+    ctx.clause("R-COVER premise of the `verified CID store` rows: type-derived check_reference obligations hold (every entry, unconditional, propagated)")
+    from props import C14
+    C14.cid_reference_obligations(ctx, F)
     av = F.fn("stream_definition::Stream::add_value")
     avp = Prov(av)
     ck = av.calls_to("Stream::check_stream_size_limit")
